@@ -71,6 +71,7 @@ class RNode(object):
 class RefGraph(object):
     def __init__(self):
         self.nodes = {}
+        self.events = set()  # semantic tags of what the history contained (used for finding fingerprints)
 
     # -- structure helpers
     def has(self, nid):
@@ -155,7 +156,7 @@ class RefGraph(object):
                 try:
                     return self.eval(c)
                 except RefFail:
-                    pass
+                    self.events.add("fallback_after_failed_alternative")
             raise RefFail("RuntimeError")
         raise AssertionError(k)
 
